@@ -353,7 +353,8 @@ class Machine:
             elif n == "Do":
                 form = self.forms.get(a[0].b)
                 if form is not None and depth < 6:
-                    sub = Machine(form.fonts, form.forms)
+                    # a form without /Resources of its own uses those of its caller
+                    sub = Machine(form.fonts, form.forms) if form.fonts is not None else Machine(self.fonts, self.forms)
                     sub.events = self.events
                     sub.run(form.prog, ctm=mult(form.matrix, g.ctm), depth=depth + 1)
             elif n == "":
